@@ -6,10 +6,10 @@ pid=$1; tag=${2:-a}
 src=${3:-/tmp/wt_$pid}/_seed
 dst=/verif/seeded/$pid-$tag
 mkdir -p $dst
-cp $src/patch.diff $src/demo.py $dst/ ; cp $src/notes.md $dst/notes.md 2>/dev/null
+cp $src/patch.diff $src/demo.py $dst/ ; cp $src/notes.md $dst/notes.md 2>/dev/null; for f in $src/*.py; do case $(basename $f) in exp*|probe*|scratch*) ;; *) cp $f $dst/ ;; esac; done
 wt=/tmp/confirm_$pid
 rm -rf $wt; git -C /repo worktree prune; git -C /repo worktree add -q --detach $wt HEAD
-cd $wt && mkdir -p _seed && cp $dst/demo.py _seed/demo.py
+cd $wt && mkdir -p _seed && cp $dst/*.py _seed/
 export OMP_NUM_THREADS=1
 /venv/bin/python _seed/demo.py > $dst/demo_without.log 2>&1; r0=$?
 git apply $dst/patch.diff || { echo "PATCH DOES NOT APPLY"; exit 2; }
